@@ -1114,12 +1114,13 @@ theorem examine_gaps (o nrm : V3) (hn : nrm.dot nrm = 1) {s : Rat} (hs : 0 < s) 
     rw [div_eq_iff (ne_of_gt hs)]; push_cast; ring
   have hround : (js.map fun j => ((k j : Nat) : Rat)).map roundHalfEven = js.map fun j => ((k j : Nat) : Int) := by
     rw [List.map_map]; apply List.map_congr_left; intro j _; exact roundHalfEven_natCast (k j)
+  have htau : 0 ≤ rtol + atol / rabs s := add_nonneg hr (div_nonneg ha (rabs_nonneg s))
   have hreg : (((js.map fun j => ((k j : Nat) : Rat)).zip (js.map fun j => ((k j : Nat) : Int))).all
-      fun mr => isClose mr.1 (mr.2 : Rat) rtol atol) = true := by
+      fun mr => isClose mr.1 (mr.2 : Rat) 0 (rtol + atol / rabs s)) = true := by
     rw [List.zip_map', List.all_map, List.all_eq_true]
     intro j _
     simp only [Function.comp, Int.cast_natCast]
-    exact isClose_self _ rtol atol hr ha
+    exact isClose_self _ 0 _ (le_refl 0) htau
   have hkM : ((k M : Nat) : Rat) * s ≠ 0 := by
     have h1 : M ≤ k M := hk.le_apply
     have h2 : (1 : Rat) ≤ ((k M : Nat) : Rat) := by exact_mod_cast (le_trans hM h1)
@@ -1421,5 +1422,318 @@ theorem maxList_eq {l : List Int} {m : Int} (hm : m ∈ l) (hle : ∀ x ∈ l, x
     · rcases List.mem_cons.mp hm with rfl | hm'
       · exact h1
       · exact h2 m hm'
+
+/-! ## gaps branch: rounding, the decision for a stack along a line, inversion for arbitrary rows -/
+
+
+theorem floor_le' (x : Rat) : ((x.floor : Int) : Rat) ≤ x := Rat.le_floor_iff.mp (le_refl _)
+theorem lt_floor_add_one' (x : Rat) : x < ((x.floor : Int) : Rat) + 1 := by
+  have : x.floor < x.floor + 1 := by omega
+  have := Rat.floor_lt_iff.mp this
+  push_cast at this
+  exact this
+
+/-- rounding moves a number by at most one half -/
+theorem roundHalfEven_near (x : Rat) :
+    ((roundHalfEven x : Int) : Rat) - 1 / 2 ≤ x ∧ x ≤ ((roundHalfEven x : Int) : Rat) + 1 / 2 := by
+  have h1 := floor_le' x
+  have h2 := lt_floor_add_one' x
+  unfold roundHalfEven
+  simp only []
+  split_ifs with a b c <;> push_cast <;> constructor <;> linarith
+
+/-- rounding is monotone -/
+theorem roundHalfEven_mono {x y : Rat} (h : x ≤ y) : roundHalfEven x ≤ roundHalfEven y := by
+  by_contra hn
+  have hlt : roundHalfEven y + 1 ≤ roundHalfEven x := by omega
+  have hc : ((roundHalfEven y : Int) : Rat) + 1 ≤ ((roundHalfEven x : Int) : Rat) := by exact_mod_cast hlt
+  have hx := (roundHalfEven_near x).1
+  have hy := (roundHalfEven_near y).2
+  have hxy : x = y := le_antisymm h (by linarith)
+  subst hxy
+  exact hn (le_refl _)
+
+
+
+theorem minList_mem {l : List Rat} {m : Rat} (h : minList l = some m) : m ∈ l := by
+  cases l with
+  | nil => cases h
+  | cons a as =>
+    simp only [minList, Option.some.injEq] at h
+    subst h
+    rcases foldl_min_mem as a with h | h
+    · rw [h]; exact List.mem_cons_self
+    · exact List.mem_cons_of_mem _ h
+
+theorem minList_le {l : List Rat} {m : Rat} (h : minList l = some m) : ∀ x ∈ l, m ≤ x := by
+  cases l with
+  | nil => cases h
+  | cons a as =>
+    simp only [minList, Option.some.injEq] at h
+    subst h
+    obtain ⟨h1, h2⟩ := foldl_min_le as a
+    intro x hx
+    rcases List.mem_cons.mp hx with rfl | hx
+    · exact h1
+    · exact h2 x hx
+
+theorem diffs_nonneg : ∀ (l : List Rat), l.Pairwise (· ≤ ·) → ∀ x ∈ diffs l, 0 ≤ x := by
+  intro l
+  induction l with
+  | nil => intro _ x hx; simp [diffs] at hx
+  | cons a as ih =>
+    intro h x hx
+    cases as with
+    | nil => simp [diffs] at hx
+    | cons b bs =>
+      simp only [diffs, List.mem_cons] at hx
+      have hp := List.pairwise_cons.mp h
+      rcases hx with rfl | hx
+      · have := hp.1 b List.mem_cons_self; linarith
+      · exact ih hp.2 x hx
+
+theorem eqTol_pos : 0 < eqTol := by decide +kernel
+
+/-- the spacing found in the gaps branch is positive: a positive hint, or the smallest gap of the sorted distances when
+that is not zero within `1e-5` -/
+theorem gaps_spacing_pos {d : List Rat} {s : Rat} (hm : minList (diffs (sortRat d)) = some s)
+    (hz : isClose s 0 npRtol eqTol = false) : 0 < s := by
+  have hnn : 0 ≤ s := diffs_nonneg _ (sortRat_sorted d) s (minList_mem hm)
+  rcases lt_or_eq_of_le hnn with h | h
+  · exact h
+  · exfalso
+    rw [← h] at hz
+    have : isClose 0 0 npRtol eqTol = true := isClose_zero
+    rw [this] at hz; cases hz
+
+/-- what the gaps branch returns: the least distance, the rounded multiples, and — when it calls the rows regular — every
+multiple within tolerance of its rounding -/
+theorem spacingMissing_inv {d ds : List Rat} {hint : Option Rat} {rtol atol s : Rat} {reg : Bool} {inv : List Int}
+    (h : spacingMissing d ds hint rtol atol = .ok (some (s, reg, inv))) :
+    ∃ dmin, minList d = some dmin ∧ inv = d.map (fun x => roundHalfEven ((x - dmin) / s)) ∧
+      (reg = true → ∀ x ∈ d, isClose ((x - dmin) / s) ((roundHalfEven ((x - dmin) / s) : Int) : Rat) 0 (rtol + atol / rabs s) = true) ∧
+      (∀ hh, hint = some hh → s = hh) ∧
+      (hint = none → minList (diffs ds) = some s ∧ isClose s 0 npRtol eqTol = false) := by
+  unfold spacingMissing at h
+  obtain ⟨sp, hsp, h⟩ := bind_ok h
+  cases sp with
+  | none => simp [pure, Except.pure] at h
+  | some s' =>
+    cases hdm : minList d with
+    | none => simp [hdm, pure, Except.pure] at h
+    | some dmin =>
+      simp only [hdm, pure, Except.pure, Except.ok.injEq, Option.some.injEq, Prod.mk.injEq] at h
+      obtain ⟨rfl, hreg, hinv⟩ := h
+      refine ⟨dmin, rfl, ?_, ?_, ?_, ?_⟩
+      · rw [← hinv, List.map_map]; rfl
+      · intro hr x hx
+        rw [← hreg, List.all_eq_true] at hr
+        have := hr ((x - dmin) / s', roundHalfEven ((x - dmin) / s')) (by
+          rw [List.map_map, List.zip_map', List.mem_map]
+          exact ⟨x, hx, rfl⟩)
+        exact this
+      · intro hh hhint
+        subst hhint
+        simp only [pure, Except.pure, Except.ok.injEq, Option.some.injEq] at hsp
+        exact hsp.symm
+      · intro hnone
+        subst hnone
+        simp only [] at hsp
+        cases hml : minList (diffs ds) with
+        | none => simp [hml] at hsp
+        | some m =>
+          simp only [hml] at hsp
+          split at hsp
+          · cases hsp
+          · rename_i hc
+            simp only [pure, Except.pure, Except.ok.injEq, Option.some.injEq] at hsp
+            subst hsp
+            exact ⟨rfl, by simpa using hc⟩
+
+
+
+/-- **the decision of the examination step with gaps allowed, for a stack along a line** (rows `f j` at strictly increasing
+distances `g j`, any input order): with the spacing `sp` (the hint, or the smallest consecutive gap), plane `j` gets the
+rounded multiple `round((g j − g 0)/sp)`; the stack is accepted iff every multiple is within `rtol + atol/|sp|` of its
+rounding and the span is perpendicular. -/
+theorem examine_gaps_line (nrm : V3) (f : Nat → V3) (g : Nat → Rat) (hfg : ∀ j, nrm.dot (f j) = g j) (hg : StrictMono g)
+    {js : List Nat} {M : Nat} (hM : 1 ≤ M) (hp : js.Perm (List.range (M + 1))) {sp : Rat} (hsp0 : 0 < sp)
+    (hint : Option Rat)
+    (hsp : hint = some sp ∨ (hint = none ∧ minList (diffs ((List.range (M + 1)).map g)) = some sp ∧
+      isClose sp 0 npRtol eqTol = false))
+    (rtol atol : Rat) (enforce : Bool) :
+    examine nrm (js.map f) true true hint rtol atol enforce
+      = .ok (if ((List.range (M + 1)).all fun j =>
+                  isClose ((g j - g 0) / sp) ((roundHalfEven ((g j - g 0) / sp) : Int) : Rat) 0 (rtol + atol / rabs sp))
+                && isPerpendicular nrm ((f M).sub (f 0))
+             then some (sp, js.map fun j => roundHalfEven ((g j - g 0) / sp)) else none) := by
+  have hlen : js.length = M + 1 := by rw [hp.length_eq, List.length_range]
+  have h0 : 0 ∈ js := hp.mem_iff.mpr (by simp)
+  have hMm : M ∈ js := hp.mem_iff.mpr (by simp)
+  have hd : (js.map f).map nrm.dot = js.map g := by
+    rw [List.map_map]; apply List.map_congr_left; intro j _; exact hfg j
+  have hmult : (js.map g).map (fun x => (x - g 0) / sp) = js.map fun j => (g j - g 0) / sp := by
+    rw [List.map_map]; rfl
+  have hround : (js.map fun j => (g j - g 0) / sp).map roundHalfEven = js.map fun j => roundHalfEven ((g j - g 0) / sp) := by
+    rw [List.map_map]; rfl
+  have hreg : (((js.map fun j => (g j - g 0) / sp).zip (js.map fun j => roundHalfEven ((g j - g 0) / sp))).all
+      fun mr => isClose mr.1 (mr.2 : Rat) 0 (rtol + atol / rabs sp))
+      = ((List.range (M + 1)).all fun j =>
+          isClose ((g j - g 0) / sp) ((roundHalfEven ((g j - g 0) / sp) : Int) : Rat) 0 (rtol + atol / rabs sp)) := by
+    rw [List.zip_map', List.all_map]
+    exact hp.all_eq
+  have hns : ¬ sp < 0 := not_lt.mpr (le_of_lt hsp0)
+  have hspm : spacingMissing (js.map g) ((List.range (M + 1)).map g) hint rtol atol
+      = .ok (some (sp, ((List.range (M + 1)).all fun j =>
+          isClose ((g j - g 0) / sp) ((roundHalfEven ((g j - g 0) / sp) : Int) : Rat) 0 (rtol + atol / rabs sp)),
+          js.map fun j => roundHalfEven ((g j - g 0) / sp))) := by
+    unfold spacingMissing
+    rcases hsp with h | ⟨h, hm, hz⟩
+    · subst h
+      simp only [minList_mono hg hp, hmult, hround, hreg, bind, Except.bind, pure, Except.pure]
+    · subst h
+      simp only [hm, hz, minList_mono hg hp, hmult, hround, hreg, bind, Except.bind, pure, Except.pure,
+        Bool.false_eq_true, if_false]
+  unfold examine
+  simp only [hd, if_true, ranks_mono hg hp, sortRat_mono hg hp, hspm, bind, Except.bind, pure, Except.pure,
+    List.length_map, hlen, Nat.add_sub_cancel,
+    atRank_map f js 0 h0, atRank_map f js M hMm, rabs_of_pos hsp0, hns, decide_false, Bool.and_false, Bool.false_eq_true,
+    if_false]
+  split_ifs <;> simp_all
+
+
+
+theorem examine_gaps_some {nrm : V3} {u : List V3} {hint : Option Rat} {rtol atol : Rat} {enforce : Bool} {spR : Rat}
+    {inv : List Int} (h : examine nrm u true true hint rtol atol enforce = .ok (some (spR, inv))) :
+    ∃ s, spacingMissing (u.map nrm.dot) (sortRat (u.map nrm.dot)) hint rtol atol = .ok (some (s, true, inv)) ∧ spR = rabs s := by
+  unfold examine at h
+  simp only [if_true] at h
+  obtain ⟨r, hr, h⟩ := bind_ok h
+  cases r with
+  | none => simp [pure, Except.pure] at h
+  | some r =>
+    obtain ⟨s, reg, inv'⟩ := r
+    simp only [pure, Except.pure] at h
+    split at h
+    · cases h
+    · split at h
+      · split at h
+        · rename_i hc
+          simp only [Except.ok.injEq, Option.some.injEq, Prod.mk.injEq] at h
+          obtain ⟨h1, h2⟩ := h
+          subst h2
+          have hreg : reg = true := by
+            simp only [Bool.and_eq_true] at hc; exact hc.1
+          subst hreg
+          exact ⟨s, hr, h1.symm⟩
+        · cases h
+      · cases h
+
+/-! ## the spacing hint of a series -/
+
+theorem commonHint_eq_some_iff (sbs : List (Option Rat)) (v : Rat) :
+    commonHint sbs = some v ↔ (sbs.filterMap id ≠ [] ∧ ∀ x ∈ sbs.filterMap id, x = v) := by
+  unfold commonHint
+  cases h : sbs.filterMap id with
+  | nil => simp
+  | cons a as =>
+    simp only [ne_eq, reduceCtorEq, not_false_eq_true, true_and, List.mem_cons, forall_eq_or_imp]
+    by_cases hall : (as.all fun x => x == a) = true
+    · simp only [hall, if_true, Option.some.injEq]
+      rw [List.all_eq_true] at hall
+      constructor
+      · rintro rfl; exact ⟨rfl, fun x hx => by simpa using hall x hx⟩
+      · rintro ⟨h1, _⟩; exact h1
+    · simp only [hall, Bool.false_eq_true, if_false, reduceCtorEq, false_iff, not_and]
+      intro h1 h2
+      apply hall
+      rw [List.all_eq_true]
+      intro x hx
+      simp [h2 x hx, h1]
+
+/-- the spacing hint of a series does not depend on the order of the datasets -/
+theorem commonHint_perm {sbs sbs' : List (Option Rat)} (h : sbs.Perm sbs') : commonHint sbs = commonHint sbs' := by
+  have hp : (sbs.filterMap id).Perm (sbs'.filterMap id) := h.filterMap id
+  apply Option.ext
+  intro v
+  simp only [commonHint_eq_some_iff]
+  constructor
+  · rintro ⟨h1, h2⟩
+    exact ⟨fun e => h1 (by rw [e] at hp; exact List.Perm.eq_nil hp), fun x hx => h2 x (hp.mem_iff.mpr hx)⟩
+  · rintro ⟨h1, h2⟩
+    exact ⟨fun e => h1 (by rw [e] at hp; exact List.Perm.eq_nil hp.symm), fun x hx => h2 x (hp.mem_iff.mp hx)⟩
+
+theorem commonHint_none (n : Nat) : commonHint (List.replicate n none) = none := by
+  unfold commonHint
+  have : (List.replicate n (none : Option Rat)).filterMap id = [] := by
+    induction n with
+    | zero => rfl
+    | succ n ih => simp
+  rw [this]
+
+/-! ## spacing hint without gaps; the complete decision on a line -/
+
+/-- **spacing hints without gaps**: for a stack along a line (any input order, duplicates when declared) a hint
+within tolerance of the mean spacing changes nothing, any other hint is reported as an error. -/
+theorem hint_checked_line (nrm : V3) (f : Nat → V3) (g : Nat → Rat) (hfg : ∀ j, nrm.dot (f j) = g j)
+    (hg : StrictMono g) (js : List Nat) {M : Nat} (hM : 1 ≤ M) (hmem : ∀ j, j ∈ js ↔ j < M + 1) (op : Opts)
+    (hsort : op.sort = true) (hmiss : op.allowMissing = false) (hdup : op.allowDuplicate = true ∨ js.Nodup)
+    (h rtol atol : Rat) :
+    volumePositionsOf nrm (js.map f) op (some h) rtol atol
+      = if isClose ((g M - g 0) / (M : Rat)) h rtol atol then volumePositionsOf nrm (js.map f) op none rtol atol
+        else .error .runtime := by
+  rw [volumePositionsOf_line nrm f g hfg hg js hM hmem op hsort hmiss hdup rtol atol]
+  by_cases hc : isClose ((g M - g 0) / (M : Rat)) h rtol atol = true
+  · simp only [hc, if_true]
+    have := volumePositionsOf_lift nrm f g hfg hg js hM hmem op hsort hdup (some h) rtol atol Int.ofNat
+      (.ok (if ((diffs ((List.range (M + 1)).map g)).all fun x => isClose x ((g M - g 0) / (M : Rat)) rtol atol)
+                && isPerpendicular nrm ((f M).sub (f 0)) then some ((g M - g 0) / (M : Rat)) else none))
+      (fun js' hp' => by
+        rw [hmiss, examine_line_hint nrm f g hfg hg hM hp' h rtol atol op.enforce, if_pos hc,
+          examine_line nrm f g hfg hg hM hp' rtol atol op.enforce]
+        simp only [Except.map]
+        split_ifs <;> rfl)
+    rw [this]
+    simp only [Except.map]
+    split_ifs <;> rfl
+  · simp only [hc, Bool.false_eq_true, if_false]
+    have := volumePositionsOf_lift nrm f g hfg hg js hM hmem op hsort hdup (some h) rtol atol Int.ofNat
+      (.error .runtime)
+      (fun js' hp' => by
+        rw [hmiss, examine_line_hint nrm f g hfg hg hM hp' h rtol atol op.enforce, if_neg hc]
+        rfl)
+    rw [this]; rfl
+
+/-- the decision of `get_volume_positions` on a stack along a line, hint included (no gaps) -/
+def lineDecision (nrm : V3) (f : Nat → V3) (g : Nat → Rat) (M : Nat) (hint : Option Rat) (rtol atol : Rat) :
+    Except ErrKind (Option Rat) :=
+  let mean := (g M - g 0) / (M : Rat)
+  let ok := ((diffs ((List.range (M + 1)).map g)).all fun x => isClose x mean rtol atol) && isPerpendicular nrm ((f M).sub (f 0))
+  match hint with
+  | some h => if isClose mean h rtol atol then .ok (if ok then some mean else none) else .error .runtime
+  | none => .ok (if ok then some mean else none)
+
+theorem volumePositionsOf_lineDecision (nrm : V3) (f : Nat → V3) (g : Nat → Rat) (hfg : ∀ j, nrm.dot (f j) = g j)
+    (hg : StrictMono g) (js : List Nat) {M : Nat} (hM : 1 ≤ M) (hmem : ∀ j, j ∈ js ↔ j < M + 1) (op : Opts)
+    (hsort : op.sort = true) (hmiss : op.allowMissing = false) (hdup : op.allowDuplicate = true ∨ js.Nodup)
+    (hint : Option Rat) (rtol atol : Rat) :
+    volumePositionsOf nrm (js.map f) op hint rtol atol
+      = (lineDecision nrm f g M hint rtol atol).map (Option.map fun sp => (sp, js.map Int.ofNat)) := by
+  cases hint with
+  | none =>
+    rw [volumePositionsOf_line nrm f g hfg hg js hM hmem op hsort hmiss hdup rtol atol]
+    simp only [lineDecision, Except.map]
+    split_ifs <;> rfl
+  | some h =>
+    rw [hint_checked_line nrm f g hfg hg js hM hmem op hsort hmiss hdup h rtol atol,
+      volumePositionsOf_line nrm f g hfg hg js hM hmem op hsort hmiss hdup rtol atol]
+    simp only [lineDecision, Except.map]
+    split_ifs <;> rfl
+
+
+theorem mean_spacing' (c s : Rat) (M : Nat) (hM : 1 ≤ M) : (gdist c s M - gdist c s 0) / (M : Rat) = s := by
+  have := mean_spacing c s M hM
+  have hden : (((M + 1 : Nat) : Rat)) - 1 = (M : Rat) := by push_cast; ring
+  rw [hden] at this; exact this
 
 end HdVerif.Stack
